@@ -35,7 +35,7 @@ def shards(tier):
 
 def required_counters(tier):
     return {'judged:to_image': 500, 'judged:cutout': 500, 'judged:multiply': 500, 'judged:get_values': 500,
-            'judged:image-unchanged': 500, 'judged:none-on-no-overlap': 50}
+            'judged:image-unchanged': 500, 'judged:none-on-no-overlap': 50, 'repeat-calls': 100, 'judged:mask-unchanged': 100}
 
 
 def small_boxes():
@@ -311,7 +311,16 @@ def run_case(case, obs):
         fills = [0, 7, -3, np.nan, np.inf, -np.inf]
     fill = fills[nrng.integers(len(fills))]
     dm = (nrng.random(shape) < 0.3) if nrng.random() < 0.5 else None
+    mfp = S.fingerprint(mask)
     judge_mask_ops(obs, mask, box, image, fill, bool(nrng.integers(2)), dm, f'{tag} {kind}')
+    # the same mask object applied again (same image shape, other data / data-mask / fill): every call must stand alone
+    for rep in range(int(nrng.integers(1, 4))):
+        image2 = make_image(nrng, shape, kind)
+        dm2 = [None, (nrng.random(shape) < 0.5), dm][int(nrng.integers(3))]
+        fill2 = fills[nrng.integers(len(fills))]
+        judge_mask_ops(obs, mask, box, image2, fill2, bool(nrng.integers(2)), dm2, f'{tag} {kind} repeat{rep}')
+        obs.count('repeat-calls')
+    obs.check(S.fingerprint(mask) == mfp, 'mask-object-modified', f'applying the mask changed the RegionMask object itself ({tag})', 'mask-unchanged')
 
 
 MUTANTS = [
